@@ -172,6 +172,7 @@ func (g *Gen) instr(in ssa.Instruction) {
 		if x.Op == token.MUL {
 			p := g.val(x.X)
 			g.oblige("nil", "", x.Pos(), g.nonNil(p))
+			g.lockCheck(x.X, false, x.Pos())
 			et, _ := deref(x.X.Type())
 			v := g.loadVal(p, et)
 			g.defineVal(x, v)
@@ -185,6 +186,7 @@ func (g *Gen) instr(in ssa.Instruction) {
 	case *ssa.Store:
 		p := g.val(x.Addr)
 		g.oblige("nil", "", x.Pos(), g.nonNil(p))
+		g.lockCheck(x.Addr, true, x.Pos())
 		g.checkWrite(p, g.L.Size(x.Val.Type()), x.Pos())
 		g.storeVal(p, x.Val.Type(), g.val(x.Val))
 	case *ssa.FieldAddr:
@@ -543,4 +545,75 @@ func (g *Gen) activeLoops() []*Loop {
 		}
 	}
 	return out
+}
+
+// guardOf: addr is the address of a field declared `guarded T.f by l` or `immutable T.f`; returns the base pointer
+// value of the T, the lock field name ("" for immutable) and true.
+func (g *Gen) guardOf(addr ssa.Value) (ssa.Value, string, string, bool) {
+	fa, ok := addr.(*ssa.FieldAddr)
+	if !ok || g.DB.Guards == nil {
+		return nil, "", "", false
+	}
+	st, _ := deref(fa.X.Type())
+	n, ok := types.Unalias(st).(*types.Named)
+	if !ok || n.Obj().Pkg() == nil {
+		return nil, "", "", false
+	}
+	u := n.Underlying().(*types.Struct)
+	key := ShortName(n.Obj().Pkg().Path()) + "." + n.Obj().Name() + "." + u.Field(fa.Field).Name()
+	l, ok := g.DB.Guards[key]
+	return fa.X, l, key, ok
+}
+
+// lockCheck: lock discipline of `guarded` / `immutable` fields. A write needs the write lock (mode 2), a read the read
+// or the write lock (mode >= 1), unless the object was allocated by this very call (not yet shared); an immutable
+// field is only written in an object allocated by this call. The lock's ghost `mode` is what THIS caller holds.
+func (g *Gen) lockCheck(addr ssa.Value, write bool, pos token.Pos) {
+	base, l, key, ok := g.guardOf(addr)
+	if !ok {
+		return
+	}
+	g.lockOblige(base, l, key, write, pos)
+}
+
+func (g *Gen) lockOblige(base ssa.Value, l, key string, write bool, pos token.Pos) {
+	if l == "" && !write {
+		return
+	}
+	src := "fresh(b__)"
+	if l != "" {
+		if write {
+			src = "fresh(b__) || b__." + l + ".mode == 2"
+		} else {
+			src = "fresh(b__) || b__." + l + ".mode >= 1"
+		}
+	}
+	e, err := parseSpecExpr(src)
+	if err != nil {
+		specFail("lock discipline expression: %v", err)
+	}
+	env := &SpecEnv{g: g, vars: map[string]SVal{"b__": {S: g.val(base), T: base.Type(), Sort: "Ptr"}}, st: g.cur, old: g.entry, pkg: g.fn.Pkg.Pkg, alloc0: g.entry.Alloc}
+	t, err := env.EvalBool(e)
+	if err != nil {
+		specFail("lock discipline of %s: %v", key, err)
+	}
+	what := "read"
+	if write {
+		what = "write"
+	}
+	g.oblige("lock", what+":"+key, pos, t)
+}
+
+// mapGuard: the map operand of a map operation was loaded from a guarded field: the operation itself (not only the
+// load of the map header) needs the lock.
+func (g *Gen) mapGuard(m ssa.Value, write bool, pos token.Pos) {
+	u, ok := m.(*ssa.UnOp)
+	if !ok || u.Op != token.MUL {
+		return
+	}
+	base, l, key, ok := g.guardOf(u.X)
+	if !ok || l == "" {
+		return
+	}
+	g.lockOblige(base, l, key, write, pos)
 }
